@@ -596,7 +596,8 @@ structure SInvP (cfg : Cfg) (s : State) (pend : List Nat) : Prop where
   calls  : callList s.log = s.admits.map Prod.fst
   count  : ∀ c, (s.admits.map Prod.fst).count c = admittedPh (phaseOf s c)
   rl     : ∀ c, Ev.result c .rateLimited ∈ s.log → phaseOf s c = some (.done false)
-  res    : ∀ c r, r ≠ .rateLimited → Ev.result c r ∈ s.log → phaseOf s c = some (.done true)
+  nr     : ∀ c, Ev.result c .notReady ∈ s.log → phaseOf s c = some (.done false)
+  res    : ∀ c r, r ≠ .rateLimited → r ≠ .notReady → Ev.result c r ∈ s.log → phaseOf s c = some (.done true)
   sleep  : ∀ c arr lo hi, phaseOf s c = some (.sleeping arr lo hi) →
              arr < lo ∧ lo ≤ hi ∧ hi ≤ arr + cfg.timeout ∧ arr ≤ s.now ∧
              (cfg.kind = .fixed → lo ≤ s.lim.start ∨ lo = s.lim.start + cfg.period)
@@ -625,7 +626,7 @@ theorem room_start_fixed (cfg : Cfg) (l : Lim) (now : Nat) (hk : cfg.kind = .fix
 theorem room_state (cfg : Cfg) (s : State) (hP : 1 ≤ cfg.period) (h : SInv cfg s) :
     SInvP cfg { s with lim := (room cfg s.lim s.now).1 }
       (if (room cfg s.lim s.now).2 then [s.now] else []) := by
-  refine ⟨room_inv cfg s.lim s.now hP h.limNow h.lim, Nat.le_refl _, ?_, h.calls, h.count, h.rl, h.res, ?_⟩
+  refine ⟨room_inv cfg s.lim s.now hP h.limNow h.lim, Nat.le_refl _, ?_, h.calls, h.count, h.rl, h.nr, h.res, ?_⟩
   · show s.admits.map Prod.snd ++ _ = (room cfg s.lim s.now).1.grants
     rw [room_grants]
     have := h.grants
@@ -646,7 +647,7 @@ theorem room_state (cfg : Cfg) (s : State) (hP : 1 ≤ cfg.period) (h : SInv cfg
     · rw [hst]; exact h5 hk
 
 theorem outcome_results (c k c' : Nat) (o : Out) (r : Res) (h : Ev.result c' r ∈ outcomeEvents c k o) :
-    c' = c ∧ r ≠ .rateLimited := by
+    c' = c ∧ r ≠ .rateLimited ∧ r ≠ .notReady := by
   cases o <;> simp [outcomeEvents] at h <;> obtain ⟨h1, h2⟩ := h <;> subst h2 <;> simp [h1]
 
 theorem outcome_calls (c k : Nat) (o : Out) : callList (outcomeEvents c k o) = [] := by
@@ -665,14 +666,15 @@ theorem trans_inv (cfg : Cfg) (s s' : State) (c : Nat) (p : Phase) (evs : List E
     (hothers : ∀ c', c' ≠ c → (newAdm.map Prod.fst).count c' = 0)
     (hcount : (newAdm.map Prod.fst).count c + admittedPh (phaseOf s c) = admittedPh (some p))
     (hrl : ∀ c', Ev.result c' .rateLimited ∈ evs → c' = c ∧ p = .done false)
-    (hres : ∀ c' r, r ≠ .rateLimited → Ev.result c' r ∈ evs → c' = c ∧ p = .done true)
+    (hnr : ∀ c', Ev.result c' .notReady ∈ evs → c' = c ∧ p = .done false)
+    (hres : ∀ c' r, r ≠ .rateLimited → r ≠ .notReady → Ev.result c' r ∈ evs → c' = c ∧ p = .done true)
     (hsl : ∀ arr lo hi, p = .sleeping arr lo hi →
         arr < lo ∧ lo ≤ hi ∧ hi ≤ arr + cfg.timeout ∧ arr ≤ s.now ∧
         (cfg.kind = .fixed → lo ≤ s.lim.start ∨ lo = s.lim.start + cfg.period)) :
     SInvP cfg s' pend' := by
   have hphase : ∀ c', phaseOf s' c' = if c = c' then some p else phaseOf s c' := by
     intro c'; unfold phaseOf; rw [hph]; rfl
-  refine ⟨by rw [hlim]; exact h.lim, by rw [hlim, hnow]; exact h.limNow, ?_, ?_, ?_, ?_, ?_, ?_⟩
+  refine ⟨by rw [hlim]; exact h.lim, by rw [hlim, hnow]; exact h.limNow, ?_, ?_, ?_, ?_, ?_, ?_, ?_⟩
   · rw [hadm, hlim, ← h.grants, ← hgr]; simp [List.append_assoc]
   · have hc0 := h.calls
     rw [hlog, hadm]
@@ -695,15 +697,25 @@ theorem trans_inv (cfg : Cfg) (s s' : State) (c : Nat) (p : Phase) (evs : List E
       · simp only [hc, if_false]; exact this
     · obtain ⟨h1, h2⟩ := hrl c' hm
       subst h1; simp [h2]
-  · intro c' r hr hm
+  · intro c' hm
     rw [hlog] at hm
     rw [hphase]
     rcases List.mem_append.mp hm with hm | hm
-    · have := h.res c' r hr hm
+    · have := h.nr c' hm
+      by_cases hc : c = c'
+      · subst hc; exact absurd this (hq false)
+      · simp only [hc, if_false]; exact this
+    · obtain ⟨h1, h2⟩ := hnr c' hm
+      subst h1; simp [h2]
+  · intro c' r hr hr2 hm
+    rw [hlog] at hm
+    rw [hphase]
+    rcases List.mem_append.mp hm with hm | hm
+    · have := h.res c' r hr hr2 hm
       by_cases hc : c = c'
       · subst hc; exact absurd this (hq true)
       · simp only [hc, if_false]; exact this
-    · obtain ⟨h1, h2⟩ := hres c' r hr hm
+    · obtain ⟨h1, h2⟩ := hres c' r hr hr2 hm
       subst h1; simp [h2]
   · intro c' arr lo hi hc'
     rw [hphase] at hc'
@@ -727,7 +739,8 @@ theorem startInner_inv (cfg : Cfg) (s : State) (c arr : Nat) (h : SInvP cfg s [s
     simp [this]
   · rw [h0]; simp [admittedPh]
   · intro c' hm; simp at hm
-  · intro c' r _ hm; simp at hm
+  · intro c' hm; simp at hm
+  · intro c' r _ _ hm; simp at hm
   · intro arr' lo hi hp; cases hp
 
 theorem startInner_phase (s : State) (c arr : Nat) : phaseOf (startInner s c arr) c = some (.running arr) := by
@@ -745,8 +758,9 @@ theorem pollRunning_inv (cfg : Cfg) (s : State) (c arr : Nat) (h : SInv cfg s)
       · exact outcome_calls _ _ _
       · intro c' _; rfl
       · rw [hph]; rfl
-      · intro c' hm; exact absurd rfl (outcome_results _ _ _ _ _ hm).2
-      · intro c' r _ hm; exact ⟨(outcome_results _ _ _ _ _ hm).1, rfl⟩
+      · intro c' hm; exact absurd rfl (outcome_results _ _ _ _ _ hm).2.1
+      · intro c' hm; exact absurd rfl (outcome_results _ _ _ _ _ hm).2.2
+      · intro c' r _ _ hm; exact ⟨(outcome_results _ _ _ _ _ hm).1, rfl⟩
       · intro arr' lo hi hp; cases hp
     · exact h
   · exact h
@@ -765,13 +779,26 @@ theorem rejectCall_inv (cfg : Cfg) (s : State) (c : Nat) (h : SInv cfg s)
   · intro c' _; rfl
   · rw [h0]; rfl
   · intro c' hm; simp at hm; exact ⟨hm, rfl⟩
-  · intro c' r hr hm; simp at hm; exact absurd hm.2 hr
+  · intro c' hm; simp at hm
+  · intro c' r hr _ hm; simp at hm; exact absurd hm.2 hr
+  · intro arr' lo hi hp; cases hp
+
+theorem notReadyCall_inv (cfg : Cfg) (s : State) (c : Nat) (h : SInv cfg s)
+    (hq : ∀ b, phaseOf s c ≠ some (.done b)) (h0 : admittedPh (phaseOf s c) = 0) :
+    SInv cfg (notReadyCall s c) := by
+  apply trans_inv cfg s (notReadyCall s c) c (.done false) [.result c .notReady] [] [] [] h
+    rfl rfl rfl rfl (List.append_nil _).symm hq rfl rfl
+  · intro c' _; rfl
+  · rw [h0]; rfl
+  · intro c' hm; simp at hm
+  · intro c' hm; simp at hm; exact ⟨hm, rfl⟩
+  · intro c' r _ hr hm; simp at hm; exact absurd hm.2 hr
   · intro arr' lo hi hp; cases hp
 
 /-- appending events that are neither inner calls nor results changes nothing -/
 theorem emit_noise_inv (cfg : Cfg) (s : State) (evs : List Ev) (pend : List Nat) (h : SInvP cfg s pend)
     (hc : callList evs = []) (hr : ∀ c r, Ev.result c r ∉ evs) : SInvP cfg (emit s evs) pend := by
-  refine ⟨h.lim, h.limNow, h.grants, ?_, h.count, ?_, ?_, h.sleep⟩
+  refine ⟨h.lim, h.limNow, h.grants, ?_, h.count, ?_, ?_, ?_, h.sleep⟩
   · show callList (s.log ++ evs) = _
     unfold callList at *
     rw [List.filterMap_append, hc, List.append_nil]; exact h.calls
@@ -779,9 +806,13 @@ theorem emit_noise_inv (cfg : Cfg) (s : State) (evs : List Ev) (pend : List Nat)
     rcases List.mem_append.mp hm with hm | hm
     · exact h.rl c hm
     · exact absurd hm (hr c _)
-  · intro c r hne hm
+  · intro c hm
     rcases List.mem_append.mp hm with hm | hm
-    · exact h.res c r hne hm
+    · exact h.nr c hm
+    · exact absurd hm (hr c _)
+  · intro c r hne hne2 hm
+    rcases List.mem_append.mp hm with hm | hm
+    · exact h.res c r hne hne2 hm
     · exact absurd hm (hr c _)
 
 theorem badChoice_inv (cfg : Cfg) (s : State) (pend : List Nat) (h : SInvP cfg s pend) :
@@ -821,7 +852,8 @@ theorem pollFresh_inv (cfg : Cfg) (s : State) (c : Nat) (rej : Bool) (hL : 1 ≤
         · intro c' _; rfl
         · rw [h0]; rfl
         · intro c' hm; simp at hm
-        · intro c' r _ hm; simp at hm
+        · intro c' hm; simp at hm
+        · intro c' r _ _ hm; simp at hm
         · intro arr' lo' hi' hp
           injection hp with e1 e2 e3
           subst e1 e2 e3
@@ -874,7 +906,8 @@ theorem dropCaller_inv (cfg : Cfg) (s : State) (c : Nat) (h : SInv cfg s) : SInv
     · intro c' _; rfl
     · rw [hph]; rfl
     · intro c' hm; simp at hm
-    · intro c' r _ hm; simp at hm
+    · intro c' hm; simp at hm
+    · intro c' r _ _ hm; simp at hm
     · intro arr' lo hi hp; cases hp
   · rename_i a lo hi hph
     apply trans_inv cfg s (setPh s c (.done false)) c (.done false) [] [] [] [] h rfl (List.append_nil _).symm rfl rfl (List.append_nil _).symm
@@ -884,7 +917,8 @@ theorem dropCaller_inv (cfg : Cfg) (s : State) (c : Nat) (h : SInv cfg s) : SInv
     · intro c' _; rfl
     · rw [hph]; rfl
     · intro c' hm; simp at hm
-    · intro c' r _ hm; simp at hm
+    · intro c' hm; simp at hm
+    · intro c' r _ _ hm; simp at hm
     · intro arr' lo hi hp; cases hp
   · rename_i a hph
     apply trans_inv cfg s (emit (setPh s c (.done true)) [.innerDrop c ((lookup s.kOf c).getD 0)]) c (.done true) [.innerDrop c ((lookup s.kOf c).getD 0)] [] [] [] h rfl rfl rfl rfl (List.append_nil _).symm
@@ -894,7 +928,8 @@ theorem dropCaller_inv (cfg : Cfg) (s : State) (c : Nat) (h : SInv cfg s) : SInv
     · intro c' _; rfl
     · rw [hph]; rfl
     · intro c' hm; simp at hm
-    · intro c' r _ hm; simp at hm
+    · intro c' hm; simp at hm
+    · intro c' r _ _ hm; simp at hm
     · intro arr' lo hi hp; cases hp
   · exact h
 
@@ -902,7 +937,7 @@ theorem stepS_inv (cfg : Cfg) (s : State) (op : Op) (hL : 1 ≤ cfg.limit) (hP :
     (h : SInv cfg s) : SInv cfg (stepS cfg s op) := by
   cases op with
   | adv ms =>
-    refine ⟨h.lim, Nat.le_trans h.limNow (Nat.le_add_right _ _), h.grants, h.calls, h.count, h.rl, h.res, ?_⟩
+    refine ⟨h.lim, Nat.le_trans h.limNow (Nat.le_add_right _ _), h.grants, h.calls, h.count, h.rl, h.nr, h.res, ?_⟩
     intro c arr lo hi hc
     obtain ⟨h1, h2, h3, h4, h5⟩ := h.sleep c arr lo hi hc
     exact ⟨h1, h2, h3, Nat.le_trans h4 (Nat.le_add_right _ _), h5⟩
@@ -915,15 +950,18 @@ theorem stepS_inv (cfg : Cfg) (s : State) (op : Op) (hL : 1 ≤ cfg.limit) (hP :
         cases hp : phaseOf s c with
         | none => rfl
         | some v => simp [hp] at hnone
-      apply trans_inv cfg s { setPh s c .fresh with script := (c, sc) :: s.script } c .fresh [] [] [] [] h rfl (List.append_nil _).symm rfl rfl (List.append_nil _).symm
-      · intro b hb; rw [hn] at hb; cases hb
-      · rfl
-      · rfl
-      · intro c' _; rfl
-      · rw [hn]; rfl
-      · intro c' hm; simp at hm
-      · intro c' r _ hm; simp at hm
-      · intro arr' lo hi hp; cases hp
+      split
+      · exact notReadyCall_inv cfg s c h (by intro b hb; rw [hn] at hb; cases hb) (by rw [hn]; rfl)
+      · apply trans_inv cfg s { setPh s c .fresh with script := (c, sc) :: s.script } c .fresh [] [] [] [] h rfl (List.append_nil _).symm rfl rfl (List.append_nil _).symm
+        · intro b hb; rw [hn] at hb; cases hb
+        · rfl
+        · rfl
+        · intro c' _; rfl
+        · rw [hn]; rfl
+        · intro c' hm; simp at hm
+        · intro c' hm; simp at hm
+        · intro c' r _ _ hm; simp at hm
+        · intro arr' lo hi hp; cases hp
   | poll c rej woke =>
     simp only [stepS]
     split
@@ -932,12 +970,14 @@ theorem stepS_inv (cfg : Cfg) (s : State) (op : Op) (hL : 1 ≤ cfg.limit) (hP :
     · rename_i arr hph; exact pollRunning_inv cfg s c arr h hph
     · exact h
   | drop c => exact dropCaller_inv cfg s c h
+  | busy ms => exact ⟨h.lim, h.limNow, h.grants, h.calls, h.count, h.rl, h.nr, h.res, h.sleep⟩
 
 theorem init_inv (cfg : Cfg) : SInv cfg (init cfg) := by
-  refine ⟨initLim_inv cfg, Nat.le_refl _, rfl, rfl, ?_, ?_, ?_, ?_⟩
+  refine ⟨initLim_inv cfg, Nat.le_refl _, rfl, rfl, ?_, ?_, ?_, ?_, ?_⟩
   · intro c; rfl
   · intro c hm; simp [init] at hm
-  · intro c r _ hm; simp [init] at hm
+  · intro c hm; simp [init] at hm
+  · intro c r _ _ hm; simp [init] at hm
   · intro c arr lo hi hc; simp [init, phaseOf, lookup] at hc
 
 theorem foldl_inv (cfg : Cfg) (hL : 1 ≤ cfg.limit) (hP : 1 ≤ cfg.period) (ops : List Op) (s : State)
